@@ -478,10 +478,16 @@ class ExcelParser(ExcelParserTokens):
 
             # standard postfix operators
             if ("%".find(currentChar()) != -1):
+                percent_of_literal = False
                 if (len(token) > 0):
-                    tokens.add(float(token) / 100, self.TOK_TYPE_OPERAND)
+                    try:
+                        tokens.add(float(token) / 100, self.TOK_TYPE_OPERAND)
+                        percent_of_literal = True
+                    except ValueError:
+                        # Percent of a reference or name, e.g. A1%.
+                        tokens.add(token, self.TOK_TYPE_OPERAND)
                     token = ""
-                else:
+                if not percent_of_literal:
                     tokens.add('*', self.TOK_TYPE_OP_IN)
                     tokens.add(0.01, self.TOK_TYPE_OPERAND)
                 # tokens.add(currentChar(), self.TOK_TYPE_OP_POST)
